@@ -227,6 +227,18 @@ impl Variables {
     }
 }
 
+/// Verification hooks. Compiled only with `--cfg rusty_basic_verif`.
+#[cfg(rusty_basic_verif)]
+impl Variables {
+    /// The variables in insertion order, as `(name, value)`.
+    pub fn verif_entries(&self) -> Vec<(String, Variant)> {
+        self.map
+            .entries()
+            .map(|(k, v)| (format!("{}", k), v.value.clone()))
+            .collect()
+    }
+}
+
 impl From<Arguments> for Variables {
     fn from(arguments: Arguments) -> Self {
         let mut variables: Self = Self::new();
